@@ -319,6 +319,9 @@ func afContentSize(a *astits.PacketAdaptationField) int {
 		if e.HasSeamlessSplice {
 			n += 5
 		}
+		if e.ReservedLength > 0 {
+			n += e.ReservedLength
+		}
 	}
 	return n
 }
